@@ -87,6 +87,10 @@ class MyPyAstVisitor:
 
         # Imports
         for import_ in node.imports:
+            # An import inside a function or class only binds a name there, it is no import of the module
+            if not import_.is_top_level:
+                continue
+
             if isinstance(import_, mp_nodes.Import):
                 for import_name, import_alias in import_.ids:
                     qualified_imports.append(
